@@ -50,6 +50,12 @@ type Case struct {
 	// SrvOpt: server-option class of socket lanes ("", conn-timeout-small,
 	// conn-timeout-large, prefix). PaceMs: the client pauses that long
 	// between its messages. Members: gzip member layout of the body.
+	// Asset: the download handler serves long-lived memory ("subslice",
+	// "reuse"); Reply then holds the pristine bytes the client must get.
+	// Duplex: the handler pushes Reply from a second goroutine while it
+	// receives.
+	Asset  string `json:"asset,omitempty"`
+	Duplex bool   `json:"duplex,omitempty"`
 	// KnownLen: the in-process HTTP request carries Content-Length =
 	// len(Body) instead of an unknown length (chunked / h2 without one).
 	KnownLen bool `json:"known_length,omitempty"`
@@ -205,7 +211,7 @@ func (c *Case) script() script {
 	}
 	return script{Echo: c.Echo, Reply: c.Reply, Final: c.Final, FinalMsg: c.FinalMsg,
 		Reader: c.Codec == "httpbody-reader", Writer: c.Codec == "httpbody-writer", MaxRecv: maxRecv, StopAfter: c.StopAfter,
-		EchoMode: c.EchoMode, EchoEvery: c.EchoEvery, Interfere: c.Interfere, Limit: c.Limit}
+		EchoMode: c.EchoMode, EchoEvery: c.EchoEvery, Interfere: c.Interfere, Limit: c.Limit, Asset: c.Asset, Duplex: c.Duplex}
 }
 
 // wantMsgs is the message sequence the handler is meant to receive.
@@ -578,6 +584,15 @@ func isPrefix(got, want []proto.Message) bool {
 	return true
 }
 
+func firstDiff(a, b []byte) int {
+	for i := 0; i < len(a) && i < len(b); i++ {
+		if a[i] != b[i] {
+			return i
+		}
+	}
+	return min(len(a), len(b))
+}
+
 func isEmptyMsg(m proto.Message) bool { return proto.Size(m) == 0 }
 
 // judge applies the C06 oracles to one finished stream. clientSaw tells
@@ -767,6 +782,22 @@ func (e *env) judge(c *Case, s snapshot, co *cobs, clientSaw bool) (vs []viol, o
 		var cat []byte
 		for _, m := range s.sent {
 			cat = append(cat, getField(m, "data").Bytes()...)
+		}
+		if c.Asset != "" && s.ret == nil {
+			// what must arrive is the pristine content of the asset
+			var want []byte
+			for _, b := range c.Reply {
+				want = append(want, getField(unmarshalAs(bodyDesc(), b), "data").Bytes()...)
+			}
+			if !bytes.Equal(cat, want) {
+				add("corrupt", "long-lived-asset-as-sent", fmt.Sprintf("the handler's long-lived asset no longer holds its bytes when it is sent (%d bytes, first difference at %d)", len(want), firstDiff(cat, want)))
+			} else if !bytes.Equal(co.raw, want) {
+				add("client-corrupt", "download-of-long-lived-asset", fmt.Sprintf("client received %d bytes that are not the %d bytes of the asset (first difference at %d)", len(co.raw), len(want), firstDiff(co.raw, want)))
+			}
+			if outcome == "" {
+				outcome = "ok"
+			}
+			return vs, outcome
 		}
 		switch {
 		case s.ret == nil && !bytes.Equal(co.raw, cat):
